@@ -48,7 +48,11 @@ def encoded_invocation(r) -> dict:
     if r.random() < 0.03:
         # an encoded command longer than cmd.exe's 8191 byte command line / than 64 KiB
         payload = " ".join(r.choice(["Write-Host", "zq", "lorem", "$x=1;", "ipsum"]) for _ in range(r.choice([300, 1500, 8000])))
-    b64 = base64.b64encode(payload.encode("utf-16-le"))
+    raw = payload.encode("utf-16-le")
+    if payload and r.random() < 0.08:
+        # "the UTF-16 decoding": a byte order mark selects the byte order and is not part of the text
+        raw = r.choice([b"\xff\xfe" + raw, b"\xfe\xff" + payload.encode("utf-16-be")])
+    b64 = base64.b64encode(raw)
     arg = b64
     q = r.choice([b"", b"", b"'", b'"'])
     if r.random() < 0.25:
@@ -64,8 +68,15 @@ def encoded_invocation(r) -> dict:
             text += s + t
     prefix = r.choice(PREFIXES)
     suffix = r.choice(SUFFIXES)
+    pair = False
+    if r.random() < 0.12:
+        # an earlier invocation in the same text (caret-escaped or not, encoded or not) must not change this one
+        first = r.choice([b"p^owershell -nop -c dir", b"pow^ers^hell -w hidden Get-Date", b"powershell -c dir", b"p^wsh -e ZQBjAGgAbwAgAGIAZQBlAA==",
+                          b"pwsh -enc ZQBjAGgAbwAgAGIAZQBlAA==", b"cmd /c p^owershell -c whoami"])
+        prefix = first + r.choice([b" & ", b"; ", b" && ", b"\r\n& "])
+        pair = True
     return {"data": prefix + text + suffix, "prefix": prefix, "suffix": suffix, "payload": payload, "tokens": toks,
-            "seps": seps, "quote": q}
+            "seps": seps, "quote": q, "raw": raw, "pair": pair}
 
 
 def plain_invocation(r) -> bytes:
